@@ -328,7 +328,8 @@ class SparseArray:
             return self.__array_function__(ufunc, (np.ndarray, type(self)), inputs, kwargs)
 
         if out is not None:
-            test_args = [np.empty((1,), dtype=a.dtype) if hasattr(a, "dtype") else a for a in inputs]
+            # ones, not uninitialised memory: the trial call must not depend on leftovers (integer power raises for a negative exponent)
+            test_args = [np.ones((1,), dtype=a.dtype) if hasattr(a, "dtype") else a for a in inputs]
             test_kwargs = kwargs.copy()
             if method == "reduce":
                 test_kwargs["axis"] = None
